@@ -40,6 +40,19 @@ func SwarmCfg(r *simrt.RNG) GenCfg {
 	}
 }
 
+// Deepen enlarges a third of the thorough tier's worlds beyond what the quick tier
+// ever builds (more types, converters, parameters, supplied values). It draws from
+// r only in the thorough tier, so quick-tier case streams are unaffected.
+func Deepen(cfg *GenCfg, r *simrt.RNG, tier string) {
+	if tier != "thorough" || !r.Chance(1, 3) {
+		return
+	}
+	cfg.MaxTypes = 4 + r.Intn(6)
+	cfg.MaxConvs = 4 + r.Intn(8)
+	cfg.MaxSupplied = 2 + r.Intn(5)
+	cfg.MaxParams = 2 + r.Intn(5)
+}
+
 type genState struct {
 	r    *simrt.RNG
 	cfg  GenCfg
